@@ -1,5 +1,12 @@
-//! Family binary (checks are registered here).
+//! Family binary: security upgrades and identities (C16–C21).
+mod c17;
+mod c19;
+mod c20;
+mod c21;
+mod edit;
+mod keys;
+mod noise_kit;
 
 fn main() {
-    mc::main_dispatch(&[]);
+    mc::main_dispatch(&[("C17", c17::run, c17::META), ("C19", c19::run, c19::META), ("C20", c20::run, c20::META), ("C21", c21::run, c21::META)]);
 }
